@@ -32,6 +32,8 @@ func init() {
 		"pkg/controllers/provisioning/scheduling",
 		"pkg/utils/disruption",
 		"pkg/test/v1alpha1",
+		"pkg/utils/pdb",
+		"pkg/controllers/nodeoverlay",
 	}, func(g *gen) {
 		const dis = "pkg/controllers/disruption"
 		const cp = "pkg/cloudprovider"
@@ -83,6 +85,16 @@ func init() {
 		g.c06Outline(sch, "Results.TruncateInstanceTypes", "truncateResultsOutline")
 		g.c06Outline(cp, "InstanceTypes.Truncate", "truncateTypesOutline")
 		g.c06Cmps(sch, "Results.AllNonPendingPodsScheduled", "allNonPendingCmps")
+		// which pod errors a simulation may ignore: those of pods that were ALREADY unschedulable before (IsProvisionable:
+		// unbound and marked unschedulable) — not those of pods bound to a node that are still starting (phase Pending)
+		g.callSeq(c06Group, sch, "Results.AllNonPendingPodsScheduled", "allNonPendingCalls", []string{"IsProvisionable", "IsPending", "IsScheduled", "FailedToSchedule"})
+		g.callSeq(c06Group, sch, "Results.NonPendingPodSchedulingErrors", "nonPendingErrorsCalls", []string{"IsProvisionable", "IsPending", "IsScheduled", "FailedToSchedule"})
+		// PodDisruptionBudgets: the unhealthyPodEvictionPolicy=AlwaysAllow exception for a not-Ready pod is taken BEFORE the
+		// blocker-specific test, i.e. for CanEvictPods (is the node a candidate) and isFullyBlocked (is the pod part of the
+		// simulation) alike
+		g.c06Outline("pkg/utils/pdb", "Limits.isEvictable", "pdbIsEvictableOutline")
+		// NodeOverlay prices: an overlaid offering is a COPY (the provider's cached Offering objects are never written)
+		g.c06Outline("pkg/controllers/nodeoverlay", "internalInstanceTypeStore.applyPriceOverlays", "applyPriceOverlaysOutline")
 		// prices are per NodePool: BuildNodePoolMap asks the provider for EVERY NodePool's instance types and NewCandidate
 		// prices a node from its own NodePool's entry
 		g.c06Outline(dis, "BuildNodePoolMap", "buildNodePoolMapOutline")
@@ -527,6 +539,20 @@ func c06Precedence(g *gen) {
 // c06EvictionCost: `cost := BASE; cost += delCost / math.Pow(2, A); cost += prio / math.Pow(2, B); lo.Clamp(cost, LO, HI)`.
 func c06EvictionCost(g *gen) {
 	const pkg = "pkg/utils/disruption"
+	// When the formula can no longer be read off the source (every such case is reported as a FACT-ERROR and fails the
+	// check), the constants are still emitted — with the DOCUMENTED values (1 + deletionCost/2^27 + priority/2^25, clamped to
+	// [-10, 10]) — so that the model driver links and the sweep can look for a concrete input on which the changed code
+	// breaks the property.
+	emitted := false
+	defer func() {
+		if emitted {
+			return
+		}
+		b := g.out(c06Group)
+		fmt.Fprintf(b, "/-- `disruption.EvictionCost`: NOT regenerated (the source no longer has the expected shape: see the FACT-ERROR); the documented formula -/\n")
+		fmt.Fprintf(b, "def evictionBase : Int := 1\ndef evictionDelExp : Nat := 27\ndef evictionPrioExp : Nat := 25\ndef evictionClampLo : Int := -10\ndef evictionClampHi : Int := 10\n\n")
+		g.callSeq(c06Group, "pkg/controllers/disruption", "computeRescheduleDisruptionCost", "rescheduleCostCalls", []string{"Max", "EvictionCost"})
+	}()
 	pows, pos := g.callsIn(pkg, "EvictionCost", "math.Pow")
 	if len(pows) != 2 {
 		g.errf("disruption.EvictionCost: expected two math.Pow calls, found %d", len(pows))
@@ -591,6 +617,7 @@ func c06EvictionCost(g *gen) {
 		g.errf("disruption.EvictionCost: base cost is not an integer")
 		return
 	}
+	emitted = true
 	b := g.out(c06Group)
 	fmt.Fprintf(b, "/-- `disruption.EvictionCost` (%s): cost = evictionBase + deletionCost / 2^evictionDelExp + priority / 2^evictionPrioExp, clamped to [evictionClampLo, evictionClampHi] -/\n", g.pos(pos))
 	fmt.Fprintf(b, "def evictionBase : Int := %d\ndef evictionDelExp : Nat := %d\ndef evictionPrioExp : Nat := %d\ndef evictionClampLo : Int := %d\ndef evictionClampHi : Int := %d\n\n", bi, exps[0], exps[1], loI, hiI)
